@@ -560,8 +560,10 @@ func checkC06(c *Ctx) {
 	c.Clause("the forwarded-for value is reduced to its first element (Split / SplitN n≥2 / Cut) and trimmed before hashing; client-address headers are read through Header.Get or under their canonical map key")
 	c.Clause("jump-hash arithmetic is done at 64-bit width on the key the loop advances")
 	c.Clause("ip_hash_consistent's AddBackend only appends: the pool keeps every existing backend at its index (a pool re-ordered on insertion — sorted by name, say — moves clients between old backends)")
+	c.Clause("between the balancer's entry and the strategy's pick nothing writes the request's client-address inputs (the X-Forwarded-For / X-Real-IP headers, the header map, RemoteAddr): the key the strategy hashes is the one the client's request carried")
 	c.NotDecided("minimal remapping of the integer jump-hash variant over all 2^32 keys × pool sizes (a numeric for-all)")
 	c.consistentAppendOnly()
+	c.clientKeyUntouchedBeforePick()
 
 	c.strategyHealthGuard("IPHashStrategy", "IPHashConsistentStrategy")
 	// the pool a pick is computed over is written only under the strategy's write lock: a pick that
@@ -1687,4 +1689,117 @@ func (c *Ctx) consistentAppendOnly() {
 	} else {
 		c.Fail("consistent-append-only", construct, p.Pos(fn.Pos()), bad[0], bad...)
 	}
+}
+
+// clientKeyUntouchedBeforePick: affinity is a function of the client address *as the request carried
+// it*.  The hashing strategies read X-Forwarded-For, X-Real-IP and RemoteAddr from the request object
+// the balancer hands them; a header the balancer itself sets on that object before the pick (an
+// "X-Real-IP: <peer>" meant for the backends) replaces the client's own address with the relaying
+// peer's and one client is spread over the pool.  On every path of ServeHTTP, up to the strategy's
+// NextBackend call, no store to Request.RemoteAddr / Request.Header and no Header.Set/Add/Del on the
+// request's header map whose name is (or may be) one of the two client-address headers.
+func (c *Ctx) clientKeyUntouchedBeforePick() {
+	p := c.P
+	serve := p.Fn("internal/loadbalancer", "LoadBalancer", "ServeHTTP")
+	sp := c.transparencySpec()
+	base := sp.Event
+	// the pick: the dynamic call of the Strategy interface's NextBackend, or a call of a balancer
+	// function the walker does not open that reaches one (LoadBalancer.NextBackend today)
+	isPick := func(ci ssa.CallInstruction) bool {
+		return ci.Common().IsInvoke() && ci.Common().Method.Name() == "NextBackend"
+	}
+	memo := map[*ssa.Function]bool{}
+	var reaches func(f *ssa.Function, d int) bool
+	reaches = func(f *ssa.Function, d int) bool {
+		if v, ok := memo[f]; ok {
+			return v
+		}
+		if f == nil || f.Blocks == nil || !p.IsHelios(f) || d > 4 || (sp.Expand != nil && sp.Expand(f, nil)) {
+			return false
+		}
+		memo[f] = false
+		r := false
+		for _, ci := range callsIn(f) {
+			if isPick(ci) {
+				r = true
+				break
+			}
+			if g := StaticFn(ci); g != nil && g != f && g.Blocks != nil && p.IsHelios(g) {
+				if v, ok := memo[g]; ok && v {
+					r = true
+					break
+				}
+				if _, ok := memo[g]; !ok && reachesAny(g, isPick, p, d+1) {
+					r = true
+					break
+				}
+			}
+		}
+		memo[f] = r
+		return r
+	}
+	sp.Event = func(in ssa.Instruction, fr *Frame) string {
+		if ci, ok := in.(ssa.CallInstruction); ok {
+			if isPick(ci) {
+				return "pick"
+			}
+			if f := StaticFn(ci); f != nil && reaches(f, 0) {
+				return "pick"
+			}
+		}
+		return base(in, fr)
+	}
+	picks := 0
+	c.traceRule("client-key-untouched-before-pick", "loadbalancer.(*LoadBalancer).ServeHTTP", serve, sp,
+		"on every path nothing writes RemoteAddr, the header map or a client-address header of the request before the strategy's NextBackend call",
+		func(t *Trace) string {
+			end := -1
+			for i, it := range t.Items {
+				if it.Label == "pick" {
+					end = i
+					picks++
+					break
+				}
+			}
+			if end < 0 {
+				return ""
+			}
+			for _, it := range t.Items[:end] {
+				switch {
+				case it.Label == "mutate:store http.Request.RemoteAddr", it.Label == "mutate:store http.Request.Header":
+					return "the request's client-address input is replaced before the pick: " + it.Label
+				case strings.HasPrefix(it.Label, "mutate:header.") && strings.Contains(it.Label, "http.Request.Header"):
+					ci, ok := it.Instr.(ssa.CallInstruction)
+					if !ok || len(ci.Common().Args) < 2 {
+						return "undecided: header mutation of the request before the pick: " + it.Label
+					}
+					k, isConst := constStr(ci.Common().Args[1])
+					if !isConst {
+						return "a request header with a non-constant name is written before the pick (it may be a client-address header): " + it.Label
+					}
+					switch textproto.CanonicalMIMEHeaderKey(k) {
+					case "X-Forwarded-For", "X-Real-Ip":
+						return "the balancer writes the request's " + k + " header before the strategy hashes the client address: the key is no longer the one the client's request carried"
+					}
+				}
+			}
+			return ""
+		})
+	c.Floor("client-key-untouched-before-pick", picks, 1, "paths that reach the strategy's NextBackend")
+}
+
+// reachesAny: does f (through at most a few static Helios calls) contain a call satisfying pred?
+func reachesAny(f *ssa.Function, pred func(ssa.CallInstruction) bool, p *Program, d int) bool {
+	if f == nil || f.Blocks == nil || d > 4 {
+		return false
+	}
+	for _, ci := range callsIn(f) {
+		if pred(ci) {
+			return true
+		}
+		if g := StaticFn(ci); g != nil && g != f && p.IsHelios(g) && reachesAny(g, pred, p, d+1) {
+			return true
+		}
+	}
+	return false
 }
